@@ -3,9 +3,10 @@
 From Coq Require Import List NArith.
 From Coq.Strings Require Import Byte.
 From Coq Require Import Extraction ExtrOcamlBasic.
-From GI Require Import Lib.Bytes Txtar.Txtar TxtarWrite.Path TxtarWrite.TxtarWrite TxtarWrite.Symlink.
+From GI Require Import Lib.Bytes Txtar.Txtar TxtarWrite.Path TxtarWrite.TxtarWrite TxtarWrite.Symlink TxtarWrite.Fd TxtarWrite.Cli.
 Extraction Language OCaml.
 Extraction "extracted/txtarwrite/model.ml" Byte.of_N Byte.to_N
   clean join dir_of is_abs parent_str resolve
   write write_gen created_mode extract savedir savedir_tree txtar_c entry_name savedir_entry unquote_names restored
-  s_write parse format.
+  s_write parse format
+  write_f fault_at no_faults max_open open_after txtar_x_main txtar_c_main x_cmdline c_cmdline.
